@@ -76,6 +76,8 @@ M = [
     ("C16-global-scratch-hash", ["C16"], "xmd.go",
      "\th := crypto.SHA256.New()\n", "\tif scratchHash == nil {\n\t\tscratchHash = crypto.SHA256.New()\n\t}\n\n\th := scratchHash\n"),
     # ---- C10
+    ("C10-multiply-cache-keyed-by-pointer", ["C10", "C16"], "element.go",
+     "\tr0 := newElement()\n\tr1 := e.copy()\n\tbits := s.Bits()\n", "\tif mulCache.ok && mulCache.p == e && mulCache.k == [4]uint64(s.S) {\n\t\treturn e.set(&mulCache.out)\n\t}\n\n\tr0 := newElement()\n\tr1 := e.copy()\n\tbits := s.Bits()\n"),
     ("C10-copy-returns-receiver", ["C10"], "element.go", "func (e *Element) Copy() *Element {\n\treturn e.copy()", "func (e *Element) Copy() *Element {\n\treturn e"),
     ("C10-newelement-shares-identity", ["C10", "C16"], "element.go", "func newElement() *Element {\n\treturn newEmptyElement().set(&identity)", "func newElement() *Element {\n\treturn &identity"),
 ]
@@ -83,6 +85,10 @@ M = [
 
 # additional edits in the same file (two cooperating sites)
 EXTRA = {
+    "C10-multiply-cache-keyed-by-pointer": [
+        ("\te.set(r0)\n\n\treturn e\n}\n\n// Multiply sets", "\te.set(r0)\n\tmulCache.p, mulCache.k, mulCache.ok = e, [4]uint64(s.S), true\n\tmulCache.out.set(r0)\n\n\treturn e\n}\n\n// Multiply sets"),
+        ("var identity = Element{", "var mulCache struct {\n\tp   *Element\n\tk   [4]uint64\n\tout Element\n\tok  bool\n}\n\nvar identity = Element{"),
+    ],
     "C16-global-temp-in-subtract": [("var identity = Element{", "var subTmp Element\n\nvar identity = Element{")],
     "C16-global-scratch-hash": [("var errZeroLenDST = ", "var scratchHash hash.Hash\n\nvar errZeroLenDST = ")],
 }
